@@ -43,11 +43,13 @@ func (c07) Thresholds(tier string) map[string]int64 {
 		"snapshot-after-jump":              400,
 		"prepopulated-store":               200,
 		"receiver-state-confirmed-by-hook": 1000,
+		"host-modified-a-taken-snapshot":   1000,
+		"host-modified-a-restored-snapshot": 500,
 	}
 }
 
 func (c07) Rule() string {
-	return "case = one generated program (no random built-ins; visit-count lines; an unreachable node holding a never-completing command) and one PRNG donor path. A snapshot is taken after EVERY step of the donor (step 0 included) and compared with the model's checkpoint of the most recent node entry; a deep copy made at creation is compared again after the donor and every receiver moved on. Selected save points (each distinct node entry + random ones) are restored into receivers in each state {fresh, mid-node, waiting for a choice, waiting for a command, ended, restored before, the donor itself}; right after RestoreAt the receiver's Snapshot() must equal the restored one, then the receiver is driven along PRNG continuations and compared with the model started at that checkpoint; one probe restores the same snapshot into two receivers advanced alternately; a snapshot naming an unknown node must be refused and change nothing. Non-trivial: the save point is after >=1 jump and the receiver is not fresh, or an alias probe crossed a jump. Distinct by hash of scripts+choices+save point+receiver state."
+	return "case = one generated program (no random built-ins; visit-count lines; an unreachable node holding a never-completing command) and one PRNG donor path. A snapshot is taken after EVERY step of the donor (step 0 included) and compared with the model's checkpoint of the most recent node entry; a deep copy made at creation is compared again after the donor and every receiver moved on. Selected save points (each distinct node entry + random ones) are restored into receivers in each state {fresh, mid-node, waiting for a choice, waiting for a command, ended, restored before, the donor itself}; right after RestoreAt the receiver's Snapshot() must equal the restored one, then the receiver is driven along PRNG continuations and compared with the model started at that checkpoint; one probe restores the same snapshot into two receivers advanced alternately; a snapshot naming an unknown node must be refused and change nothing; snapshots the host took or restored from are modified by the host afterwards (they are its own values), which must not reach any runner. Non-trivial: the save point is after >=1 jump and the receiver is not fresh, or an alias probe crossed a jump. Distinct by hash of scripts+choices+save point+receiver state."
 }
 
 func (c07) Assumptions() []string {
@@ -59,6 +61,26 @@ func (c07) Assumptions() []string {
 }
 
 const limboNode = "Limbo"
+
+// vandalize modifies a snapshot value the way a host might (it owns the value).
+func vandalize(s *ysgo.Snapshot) {
+	if s.Variables == nil {
+		s.Variables = map[string]variable.Value{}
+	}
+	for k := range s.Variables {
+		delete(s.Variables, k)
+		break
+	}
+	s.Variables["intruder"] = *variable.NewString("written into a snapshot by the host")
+	if s.VisitedNodes == nil {
+		s.VisitedNodes = map[string]int{}
+	}
+	for k := range s.VisitedNodes {
+		s.VisitedNodes[k] += 40
+	}
+	s.VisitedNodes["Start"] += 7
+	s.CurrentNode = "NoSuchNode"
+}
 
 func (p c07) Run(c *core.Ctx) {
 	r := c.R
@@ -122,6 +144,16 @@ func (p c07) Run(c *core.Ctx) {
 			c.Feature("snapshot-after-jump")
 		}
 		saves = append(saves, save{snap: s, copy: mon.CopySnap(s), check: donor.M.Check.Clone(), step: step, jumps: donor.M.Jumps})
+		// a snapshot is the host's own value: whatever the host does to one must not reach the runner
+		if step%3 == 0 {
+			v := donor.R.DR.Snapshot()
+			vandalize(v)
+			if d := mon.SnapDiff(donor.M.Check, donor.R.DR.Snapshot()); d != "" {
+				fail(donor, "after the host modified a snapshot it had taken, the runner's next snapshot is wrong (the snapshot shares state with the runner): "+d, map[string]any{"step": step})
+				return false
+			}
+			c.Feature("host-modified-a-taken-snapshot")
+		}
 		return true
 	}
 	if !take(0) {
@@ -278,7 +310,14 @@ func (p c07) Run(c *core.Ctx) {
 		return true
 	}
 	restoreInto := func(rc *Pair, state string, s save) bool {
-		if err := rc.R.DR.RestoreAt(s.snap); err != nil {
+		given := s.snap
+		if r.Chance(1, 3) {
+			// restore from a private copy which the host modifies right afterwards
+			given = mon.CopySnap(s.snap)
+			defer func() { c.Feature("host-modified-a-restored-snapshot") }()
+			defer vandalize(given)
+		}
+		if err := rc.R.DR.RestoreAt(given); err != nil {
 			fail(rc, "RestoreAt refused a snapshot of the same script: "+err.Error(), map[string]any{"snapshot": fmt.Sprint(*s.copy), "receiver": state})
 			return false
 		}
